@@ -81,6 +81,9 @@ impl Prop for SortP {
             }
         }
         v.push("empty".into());
+        for (c, r) in crate::engine::util::shapes(3) {
+            v.push(format!("zst {}x{}", c, r));
+        }
         // long key lines: std's unstable sort is an insertion sort (hence accidentally stable) up to 20
         // elements, so instability can only be observed beyond that length
         for k in [21usize, 24, 33, 40, 48] {
@@ -95,6 +98,19 @@ impl Prop for SortP {
     fn run_unit(&self, unit: &str, ctx: &mut Ctx) {
         if unit == "empty" {
             self.run_empty(ctx);
+            return;
+        }
+        if let Some(dims) = unit.strip_prefix("zst ") {
+            let (c, r) = dims.split_once('x').unwrap();
+            let (c, r): (usize, usize) = (c.parse().unwrap(), r.parse().unwrap());
+            let mut ops: Vec<Op> = Vec::new();
+            for var in self.variants() {
+                let dim = if self.by_row { r } else { c };
+                for i in (0..=dim + 1).chain([usize::MAX]) {
+                    ops.push(Op::Sort(var, i));
+                }
+            }
+            super::ops::zst_panic_differential(c, r, &ops, ctx);
             return;
         }
         let (r, part) = unit.rsplit_once(' ').unwrap();
@@ -112,7 +128,7 @@ impl Prop for SortP {
             "cells are (key, unique tag) pairs whose Ord/Eq look at the key only; for every shape in the bound the key {line} ranges over ALL of {{0..k-1}}^k (every tie pattern and every permutation, hence every input of the permutation-to-swaps routine), every {idx} index 0..=dim (dim itself is out of range), every entry point of the family \
              ({variants}); additionally key lines of length 21, 24, 33, 40 and 48 from an enumerated tie-rich family k[i] = (i*a+b) mod m (std's unstable sort is an insertion sort, hence accidentally stable, up to 20 elements), on owned arrays, interior and edge windows of a larger parent, and a third-party implementor using the trait defaults. \
              Oracle: the key {line} is ordered by the comparison / key function; the multiset of whole {whole} (as tag vectors) is preserved, i.e. every original {whole_s} appears intact exactly once; the stable variants equal the model's stable sort exactly; the parent outside a window is unchanged; an out-of-range index panics and changes nothing. \
-             A case is (receiver, key line, index, entry point); non-trivial = in-range index; distinct by the tuple.",
+             Arrays and windows of the zero-sized () must accept and reject exactly the same indices as arrays of ordinary elements. A case is (receiver, key line, index, entry point); non-trivial = in-range index; distinct by the tuple.",
             line = line,
             whole = whole,
             whole_s = &whole[..whole.len() - 1],
